@@ -234,13 +234,17 @@ def check(pid, cfg, args):
     # ------------------------------------------------------------ C accelerator: functional contracts of the twins (cfun)
     cfun_assumptions = []
     if cfg.get('cfun') and not args.no_prove:
-        from zivc import cfun, solve, core
+        from zivc import cfun, solve, core, symex
         for modname in cfg['cfun']:
             cmod = importlib.import_module('contracts.' + modname)
             wanted = cfg.get('cfun_only', {}).get(modname)
             procs = [p for p in cmod.PROCS if not wanted or p.name in wanted]
             cfun_assumptions += list(getattr(cmod, 'ASSUMPTIONS', []))
             axioms = core.prelude_axioms() + core.strlit_axioms() + cfun.api_axioms() + list(cmod.AXIOMS)
+            for lbl, hyps, goal in getattr(cmod, 'LEMMAS', []):
+                # bridging lemmas (pure mathematics over the specification functions), proved on every run
+                lr, = solve.discharge([(lbl, solve.to_smt2(list(getattr(cmod, 'LEMMA_AXIOMS', axioms)), hyps, goal))])
+                labelled.append(('cfun-lemma:%s::%s#0' % (modname, lbl), symex.Obligation('lemma:' + lbl, hyps, goal, 'lemma'), lr, 'lemma'))
             for p, status, detail, obls, npaths, ex in cfun.verify_cprocs(procs, cmod.FIELDS):
                 cfuncs.append({'function': p.name, 'file': 'src/zope/interface/_zope_interface_coptimizations.c',
                                'language': 'c', 'kind': 'functional contract (cfun)', 'status': status, 'paths': npaths, 'obligations': len(obls)})
